@@ -223,8 +223,8 @@ theorem sum_filter_partition (F : Nat → Nat) (p : Nat → Bool) (l : List Nat)
   | nil => simp
   | cons a l ih =>
     by_cases h : p a
-    · simp [List.filter_cons, h]; omega
-    · simp [List.filter_cons, h]; omega
+    · simp [h]; omega
+    · simp [h]; omega
 
 theorem groupIdx_false_eq (weights : List Nat) :
     groupIdx weights false
@@ -244,7 +244,7 @@ theorem childGenerators_eq (dims : List Dim) :
   simp only
   generalize groupIdx (dims.map (·.weight)) true = a
   generalize groupIdx (dims.map (·.weight)) false = b
-  cases a <;> cases b <;> simp [List.filter_cons]
+  cases a <;> cases b <;> simp
 
 theorem mkGroupGen_ok (dims : List Dim) (b : Bool)
     (hne : groupIdx (dims.map (·.weight)) b ≠ []) :
